@@ -4,7 +4,6 @@ import (
 	"io"
 	"io/fs"
 	"path"
-	"sort"
 	"strings"
 	"syscall"
 	"time"
@@ -33,10 +32,59 @@ type FS struct {
 type node struct {
 	dir      bool
 	data     []byte
-	children map[string]*node
+	children []dent // sorted by name; a slice, not a map: the runtime instruments map accesses for the race detector even in norace code
 	perm     fs.FileMode
 	mtime    time.Duration
 }
+
+type dent struct {
+	name string
+	n    *node
+}
+
+//go:norace
+func (n *node) get(name string) (*node, bool) {
+	for i := range n.children {
+		if n.children[i].name == name {
+			return n.children[i].n, true
+		}
+	}
+	return nil, false
+}
+
+//go:norace
+func (n *node) set(name string, c *node) {
+	for i := range n.children {
+		if n.children[i].name == name {
+			n.children[i].n = c
+			return
+		}
+	}
+	i := 0
+	for i < len(n.children) && n.children[i].name < name {
+		i++
+	}
+	n.children = append(n.children, dent{})
+	for j := len(n.children) - 1; j > i; j-- {
+		n.children[j] = n.children[j-1]
+	}
+	n.children[i] = dent{name: name, n: c}
+}
+
+//go:norace
+func (n *node) del(name string) {
+	for i := range n.children {
+		if n.children[i].name == name {
+			for j := i; j+1 < len(n.children); j++ {
+				n.children[j] = n.children[j+1]
+			}
+			n.children = n.children[:len(n.children)-1]
+			return
+		}
+	}
+}
+
+func newDir(perm fs.FileMode) *node { return &node{dir: true, perm: perm} }
 
 // LogEntry is one completed file-system mutation.
 type LogEntry struct {
@@ -62,19 +110,19 @@ type Fault struct {
 }
 
 func NewFS(w *World) *FS {
-	return &FS{w: w, root: &node{dir: true, children: map[string]*node{}, perm: 0755}, Fired: map[string]int{}}
+	return &FS{w: w, root: newDir(0755), Fired: map[string]int{}}
 }
 
 //go:norace
 func (n *node) clone() *node {
 	c := &node{dir: n.dir, perm: n.perm, mtime: n.mtime}
 	if n.dir {
-		c.children = make(map[string]*node, len(n.children))
-		for k, v := range n.children {
-			c.children[k] = v.clone()
+		c.children = make([]dent, len(n.children))
+		for i, d := range n.children {
+			c.children[i] = dent{name: d.name, n: d.n.clone()}
 		}
 	} else {
-		c.data = append([]byte(nil), n.data...)
+		c.data = cloneBytes(n.data)
 	}
 	return c
 }
@@ -109,7 +157,7 @@ func (f *FS) lookup(p string) (*node, syscall.Errno) {
 		if !n.dir {
 			return nil, syscall.ENOTDIR
 		}
-		c, ok := n.children[part]
+		c, ok := n.get(part)
 		if !ok {
 			return nil, syscall.ENOENT
 		}
@@ -129,7 +177,7 @@ func (f *FS) parent(p string) (*node, string, syscall.Errno) {
 		if !n.dir {
 			return nil, "", syscall.ENOTDIR
 		}
-		c, ok := n.children[part]
+		c, ok := n.get(part)
 		if !ok {
 			return nil, "", syscall.ENOENT
 		}
@@ -160,7 +208,7 @@ func (f *FS) log(kind, p, p2 string, off int64, data []byte, perm fs.FileMode) {
 		tid = f.w.cur.ID
 	}
 	f.Log = append(f.Log, LogEntry{Seq: f.w.Seq, Task: tid, Kind: kind, Path: p, Path2: p2, Off: off,
-		Data: append([]byte(nil), data...), Perm: perm, Tag: f.Tag})
+		Data: cloneBytes(data), Perm: perm, Tag: f.Tag})
 }
 
 // ArmFault arms a single fault and resets the call counters.
@@ -278,10 +326,10 @@ func (f *FS) mkdir(p string, perm fs.FileMode) error {
 	if e != 0 {
 		return perr("mkdir", p, e)
 	}
-	if _, ok := par.children[name]; ok {
+	if _, ok := par.get(name); ok {
 		return perr("mkdir", p, syscall.EEXIST)
 	}
-	par.children[name] = &node{dir: true, children: map[string]*node{}, perm: perm, mtime: f.w.now}
+	par.set(name, &node{dir: true, perm: perm, mtime: f.w.now})
 	f.log("mkdir", clean(p), "", 0, nil, perm)
 	return nil
 }
@@ -296,12 +344,12 @@ func (f *FS) MkdirAll(p string, perm fs.FileMode) error {
 	n := f.root
 	for _, part := range parts {
 		curp += "/" + part
-		c, ok := n.children[part]
+		c, ok := n.get(part)
 		if !ok {
 			if err := f.mkdir(curp, perm); err != nil {
 				return err
 			}
-			c = n.children[part]
+			c, _ = n.get(part)
 		} else if !c.dir {
 			return perr("mkdir", curp, syscall.ENOTDIR)
 		}
@@ -349,7 +397,7 @@ func (f *FS) OpenFile(p string, flag int, perm fs.FileMode) (*File, error) {
 			return nil, perr("open", p, pe)
 		}
 		n = &node{perm: perm, mtime: f.w.now}
-		par.children[name] = n
+		par.set(name, n)
 		f.log("create", clean(p), "", 0, nil, perm)
 	case e != 0:
 		return nil, perr("open", p, e)
@@ -384,14 +432,14 @@ func (f *FS) Remove(p string) error {
 	if e != 0 {
 		return perr("remove", p, e)
 	}
-	n, ok := par.children[name]
+	n, ok := par.get(name)
 	if !ok {
 		return perr("remove", p, syscall.ENOENT)
 	}
 	if n.dir && len(n.children) > 0 {
 		return perr("remove", p, syscall.ENOTEMPTY)
 	}
-	delete(par.children, name)
+	par.del(name)
 	par.mtime = f.w.now
 	f.log("remove", clean(p), "", 0, nil, 0)
 	return nil
@@ -408,16 +456,16 @@ func (f *FS) RemoveAll(p string) error {
 			return nil
 		}
 		if e == syscall.EINVAL { // root
-			f.root.children = map[string]*node{}
+			f.root.children = nil
 			f.log("removeall", "/", "", 0, nil, 0)
 			return nil
 		}
 		return perr("unlinkat", p, e)
 	}
-	if _, ok := par.children[name]; !ok {
+	if _, ok := par.get(name); !ok {
 		return nil
 	}
-	delete(par.children, name)
+	par.del(name)
 	f.log("removeall", clean(p), "", 0, nil, 0)
 	return nil
 }
@@ -431,7 +479,7 @@ func (f *FS) Rename(from, to string) error {
 	if e != 0 {
 		return &LinkError{"rename", from, to, e}
 	}
-	n, ok := fp.children[fname]
+	n, ok := fp.get(fname)
 	if !ok {
 		return &LinkError{"rename", from, to, syscall.ENOENT}
 	}
@@ -439,7 +487,7 @@ func (f *FS) Rename(from, to string) error {
 	if e != 0 {
 		return &LinkError{"rename", from, to, e}
 	}
-	if ex, ok := tp.children[tname]; ok {
+	if ex, ok := tp.get(tname); ok {
 		if ex.dir && !n.dir {
 			return &LinkError{"rename", from, to, syscall.EISDIR}
 		}
@@ -450,8 +498,8 @@ func (f *FS) Rename(from, to string) error {
 			return &LinkError{"rename", from, to, syscall.ENOTEMPTY}
 		}
 	}
-	delete(fp.children, fname)
-	tp.children[tname] = n
+	fp.del(fname)
+	tp.set(tname, n)
 	f.log("rename", clean(from), clean(to), 0, nil, 0)
 	return nil
 }
@@ -503,7 +551,7 @@ func (n *node) resize(size int64) {
 	if int64(len(n.data)) > size {
 		n.data = n.data[:size]
 	} else {
-		n.data = append(n.data, make([]byte, size-int64(len(n.data)))...)
+		n.data = growBytes(n.data, int(size))
 	}
 }
 
@@ -524,14 +572,9 @@ func (f *FS) ReadDir(p string) ([]fs.DirEntry, error) {
 
 //go:norace
 func dirEntries(n *node) []fs.DirEntry {
-	names := make([]string, 0, len(n.children))
-	for k := range n.children {
-		names = append(names, k)
-	}
-	sort.Strings(names)
-	out := make([]fs.DirEntry, 0, len(names))
-	for _, k := range names {
-		out = append(out, infoOf(k, n.children[k]))
+	out := make([]fs.DirEntry, 0, len(n.children))
+	for _, d := range n.children {
+		out = append(out, infoOf(d.name, d.n))
 	}
 	return out
 }
@@ -578,7 +621,7 @@ func (h *File) Read(b []byte) (int, error) {
 	if h.off >= int64(len(h.n.data)) {
 		return 0, io.EOF
 	}
-	n := copy(b, h.n.data[h.off:])
+	n := copyBytes(b, h.n.data[h.off:])
 	h.off += int64(n)
 	return n, nil
 }
@@ -594,7 +637,7 @@ func (h *File) ReadAt(b []byte, off int64) (int, error) {
 	if off >= int64(len(h.n.data)) {
 		return 0, io.EOF
 	}
-	n := copy(b, h.n.data[off:])
+	n := copyBytes(b, h.n.data[off:])
 	if n < len(b) {
 		return n, io.EOF
 	}
@@ -643,9 +686,9 @@ func (h *File) Write(b []byte) (int, error) {
 func (n *node) writeAt(data []byte, off int64) {
 	end := off + int64(len(data))
 	if end > int64(len(n.data)) {
-		n.data = append(n.data, make([]byte, end-int64(len(n.data)))...)
+		n.data = growBytes(n.data, int(end))
 	}
-	copy(n.data[off:], data)
+	copyBytes(n.data[off:], data)
 }
 
 func (h *File) WriteString(s string) (int, error) { return h.Write([]byte(s)) }
@@ -754,13 +797,13 @@ func (f *FS) Apply(e LogEntry) {
 	switch e.Kind {
 	case "mkdir":
 		if par, name, er := f.parent(e.Path); er == 0 {
-			if _, ok := par.children[name]; !ok {
-				par.children[name] = &node{dir: true, children: map[string]*node{}, perm: e.Perm}
+			if _, ok := par.get(name); !ok {
+				par.set(name, newDir(e.Perm))
 			}
 		}
 	case "create":
 		if par, name, er := f.parent(e.Path); er == 0 {
-			par.children[name] = &node{perm: e.Perm}
+			par.set(name, &node{perm: e.Perm})
 		}
 	case "truncate":
 		if n, er := f.lookup(e.Path); er == 0 && !n.dir {
@@ -772,16 +815,16 @@ func (f *FS) Apply(e LogEntry) {
 		}
 	case "remove", "removeall":
 		if par, name, er := f.parent(e.Path); er == 0 {
-			delete(par.children, name)
+			par.del(name)
 		} else if e.Path == "/" {
-			f.root.children = map[string]*node{}
+			f.root.children = nil
 		}
 	case "rename":
 		if fp, fname, er := f.parent(e.Path); er == 0 {
-			if n, ok := fp.children[fname]; ok {
+			if n, ok := fp.get(fname); ok {
 				if tp, tname, er2 := f.parent(e.Path2); er2 == 0 {
-					delete(fp.children, fname)
-					tp.children[tname] = n
+					fp.del(fname)
+					tp.set(tname, n)
 				}
 			}
 		}
@@ -796,7 +839,7 @@ func (f *FS) RawRead(p string) ([]byte, bool) {
 	if e != 0 || n.dir {
 		return nil, false
 	}
-	return append([]byte(nil), n.data...), true
+	return cloneBytes(n.data), true
 }
 
 // RawWrite creates or replaces a file (parents are created).
@@ -806,24 +849,24 @@ func (f *FS) RawWrite(p string, data []byte) {
 	parts := split(p)
 	n := f.root
 	for _, part := range parts[:len(parts)-1] {
-		c, ok := n.children[part]
+		c, ok := n.get(part)
 		if !ok {
-			c = &node{dir: true, children: map[string]*node{}, perm: 0700}
-			n.children[part] = c
+			c = newDir(0700)
+			n.set(part, c)
 		}
 		n = c
 	}
-	n.children[parts[len(parts)-1]] = &node{data: append([]byte(nil), data...), perm: 0700}
+	n.set(parts[len(parts)-1], &node{data: cloneBytes(data), perm: 0700})
 }
 
 //go:norace
 func (f *FS) RawMkdir(p string) {
 	n := f.root
 	for _, part := range split(p) {
-		c, ok := n.children[part]
+		c, ok := n.get(part)
 		if !ok {
-			c = &node{dir: true, children: map[string]*node{}, perm: 0700}
-			n.children[part] = c
+			c = newDir(0700)
+			n.set(part, c)
 		}
 		n = c
 	}
@@ -835,10 +878,10 @@ func (f *FS) RawRemove(p string) bool {
 	if e != 0 {
 		return false
 	}
-	if _, ok := par.children[name]; !ok {
+	if _, ok := par.get(name); !ok {
 		return false
 	}
-	delete(par.children, name)
+	par.del(name)
 	return true
 }
 
@@ -855,15 +898,9 @@ func (f *FS) RawList(p string) ([]RawEntry, bool) {
 	if e != 0 || !n.dir {
 		return nil, false
 	}
-	names := make([]string, 0, len(n.children))
-	for k := range n.children {
-		names = append(names, k)
-	}
-	sort.Strings(names)
-	out := make([]RawEntry, 0, len(names))
-	for _, k := range names {
-		c := n.children[k]
-		out = append(out, RawEntry{Name: k, Dir: c.dir, Size: len(c.data)})
+	out := make([]RawEntry, 0, len(n.children))
+	for _, d := range n.children {
+		out = append(out, RawEntry{Name: d.name, Dir: d.n.dir, Size: len(d.n.data)})
 	}
 	return out, true
 }
@@ -884,13 +921,8 @@ func (f *FS) Hash(p string) uint64 {
 		}
 		if n.dir {
 			h = (h ^ 0xd1) * 1099511628211
-			names := make([]string, 0, len(n.children))
-			for k := range n.children {
-				names = append(names, k)
-			}
-			sort.Strings(names)
-			for _, k := range names {
-				rec(k, n.children[k])
+			for _, d := range n.children {
+				rec(d.name, d.n)
 			}
 			h = (h ^ 0xd2) * 1099511628211
 		} else {
@@ -902,4 +934,45 @@ func (f *FS) Hash(p string) uint64 {
 	}
 	rec("", n)
 	return h
+}
+
+// Byte helpers written as plain loops: with -race the compiler turns copy()
+// and append(x, y...) into runtime calls that record the accesses, and file
+// contents passed between tasks through the simulated kernel are not shared
+// memory of the program under test.
+
+//go:norace
+func copyBytes(dst, src []byte) int {
+	n := len(src)
+	if len(dst) < n {
+		n = len(dst)
+	}
+	for i := 0; i < n; i++ {
+		dst[i] = src[i]
+	}
+	return n
+}
+
+//go:norace
+func cloneBytes(src []byte) []byte {
+	if src == nil {
+		return nil
+	}
+	out := make([]byte, len(src))
+	for i := range src {
+		out[i] = src[i]
+	}
+	return out
+}
+
+//go:norace
+func growBytes(b []byte, size int) []byte {
+	if size <= len(b) {
+		return b
+	}
+	out := make([]byte, size)
+	for i := range b {
+		out[i] = b[i]
+	}
+	return out
 }
